@@ -189,6 +189,131 @@ def nan_rule(prog, res, ents):
     res.extra["nan_intolerant"] = sink_mods
 
 
+def object_invariants(prog, res, ents):
+    """C14.B (second half of the property: a value returned as Ok can be queried, updated, merged, re-serialized without
+    panicking): every checked subtraction `a - b` over `self` fields in a method of a deserializable type needs b <= a for
+    the objects the deserializer returns.  The reader's field expressions and the exact path conditions of its Ok
+    construction are evaluated on a boundary grid of image field values; a reachable Ok with b > a is a violation."""
+    import itertools
+    n = 0
+    for ent in ents:
+        f = prog.fns[ent]
+        owner = f.owner
+        if not owner or owner not in prog.adts:
+            continue
+        # the Ok constructions of the owner type reachable from the entry (same module)
+        builds = []
+        for g in C.reach_from(prog, [ent]):
+            if g.id.split("::")[0] != ent.split("::")[0]:
+                continue
+            sg = None
+            for b in g.blocks:
+                if b.cleanup:
+                    continue
+                for i, st in enumerate(b.stmts):
+                    if st[0] == "=" and st[2][0] == "agg" and st[2][1][0] == "adt" and st[2][1][1] == owner:
+                        sg = sg or sym.Sym(prog, g)
+                        names = st[2][1][4]
+                        flds = {nm: sg.at(b.idx, i).operand(o) for nm, o in zip(names, st[2][2])}
+                        builds.append((g, sg, b.idx, flds))
+        if not builds:
+            continue
+        # needed invariants: checked subtractions over self fields in the type's other methods
+        needs = []
+        for m in prog.fns.values():
+            if m.promoted or m.owner != owner or m.id == ent or m.item_name.startswith(("deserialize", "new", "with_", "make", "from_")):
+                continue
+            sm = None
+            for b in m.blocks:
+                t = b.term
+                if b.cleanup or t[0] != "assert" or t[3] != "Overflow:Sub":
+                    continue
+                sm = sm or sym.Sym(prog, m)
+                a, bb = sm.at(b.idx, "t").operand(t[4][0]), sm.at(b.idx, "t").operand(t[4][1])
+                lv = set(formula.leaves(a)) | set(formula.leaves(bb))
+                lv = set(k for k in lv if not k.startswith("len("))
+                if not lv or not all(k == "self" or k.startswith("self.") for k in lv):
+                    continue
+                if a[0] == "const" or bb[0] == "const":
+                    continue
+                needs.append((m, a, bb, t[6]))
+        for (m, a, bb, span) in needs:
+            for (g, sg, blk, flds) in builds:
+                import re as _re
+                fl = set(x for k in (set(formula.leaves(a)) | set(formula.leaves(bb))) for x in _re.findall(r"self\.(\w+)", k))
+                if not fl <= set(flds):
+                    continue
+                exprs = [flds[x] for x in fl]
+                paths = sg.path_conditions(blk) or []
+                keys = set(k for e in exprs for k in formula.leaves(e) if k.startswith("read_") and "@" in k and k.endswith("()"))
+                if not keys or len(keys) > 3:
+                    continue
+                ck = {}
+                for pth in paths:
+                    for c, tv in pth:
+                        ck[id(c)] = set(k for k in formula.leaves(c) if k.startswith("read_") and "@" in k and k.endswith("()"))
+                grow = True
+                while grow:
+                    grow = False
+                    for ks in list(ck.values()):
+                        if ks & keys and not ks <= keys and len(keys | ks) <= 3:
+                            keys |= ks
+                            grow = True
+                keys = sorted(keys)
+                slim = sorted(set(tuple((c, tv) for (c, tv) in pth if ck[id(c)] and ck[id(c)] <= set(keys)) for pth in paths), key=len)
+                n += 1
+                res.obligations += 1
+                dom = (0, 1, 2, 3, 63, 64, 65, 127, 128, 129, 191, 192, 193, 255, 256, 257, 4095, 4096, 4097)
+                bad = None
+                evaluated = 0
+                for vals in itertools.product(*[dom for _ in keys]):
+                    env = dict(zip(keys, vals))
+                    env["@prog"] = prog
+                    env["@cache"] = {}
+                    ok_r = not slim
+                    for pth in slim:
+                        good = True
+                        for c, tv in pth:
+                            try:
+                                v = formula.evaluate(c, env)
+                            except (formula.Uneval, TypeError, ZeroDivisionError):
+                                continue
+                            if isinstance(v, tuple):
+                                continue
+                            if (tv[0] == "eq" and v != tv[1]) or (tv[0] == "ne" and v in tv[1]):
+                                good = False
+                                break
+                        if good:
+                            ok_r = True
+                            break
+                    if not ok_r:
+                        continue
+                    try:
+                        fenv = {"@prog": prog}
+                        for x in fl:
+                            fv = flds[x]
+                            try:
+                                fenv["self." + x] = formula.evaluate(fv, env)
+                            except formula.Uneval:
+                                fenv["len(self.%s)" % x] = formula.seq_len(fv, env)
+                        va, vb = formula.evaluate(a, fenv), formula.evaluate(bb, fenv)
+                    except (formula.Uneval, TypeError, ZeroDivisionError):
+                        continue
+                    evaluated += 1
+                    if vb > va:
+                        bad = (dict(zip(keys, vals)), va, vb)
+                        break
+                if bad:
+                    res.violate("C14.B", "C14.B|%s|%s" % (m.id, sym.show(bb)[:40]), "%s computes %s - %s with overflow checks, but %s returns Ok for an image with field values %s where that is %r - %r: the decoded object panics on use" % (
+                        m.id, sym.show(a)[:60], sym.show(bb)[:60], g.id, bad[0], bad[1], bad[2]), g.id, span)
+                elif evaluated:
+                    res.discharged += 1
+                    res.sample({"rule": "C14.B", "method": m.id, "needs": "%s <= %s" % (sym.show(bb)[:50], sym.show(a)[:50]), "reader": g.id, "grid_points": evaluated})
+                else:
+                    res.undecided += 1
+    res.rule("C14.B", n, 1, "checked subtractions over self fields in methods of deserializable types, against the reader's Ok conditions")
+
+
 def run(prog, ctx):
     res = Result("C14")
     ents, missing = entries(prog)
@@ -204,6 +329,7 @@ def run(prog, ctx):
     accepted = []
     n_tainted = 0
     nan_rule(prog, res, ents)
+    object_invariants(prog, res, ents)
     nan_obl = res.obligations
     for o in an.obligations:
         b = srcs(o.taint)
